@@ -15,6 +15,55 @@ sqf::runtime::verif::hooks sqf::runtime::verif::g_hooks = {};
 #include <iomanip>
 #endif // DF__SQF_RUNTIME__ASSEMBLY_DEBUG_ON_EXECUTE
 
+// Hands a raised runtime error to the nearest enclosing frame that takes it over.
+// Returns false (after logging the stacktrace) if no frame does.
+static bool recover_runtime_error(sqf::runtime::runtime& runtime, const sqf::runtime::diagnostics::diag_info& dinf)
+{
+    auto& context_active = runtime.context_active();
+    auto& runtime_error = runtime.__runtime_error();
+    auto log_messages = runtime.log_messages;
+    runtime.log_messages.clear();
+    // Build Stacktrace
+    std::vector<sqf::runtime::frame> stacktrace_frames(context_active.frames_rbegin(), context_active.frames_rend());
+    sqf::runtime::diagnostics::stacktrace stacktrace(stacktrace_frames);
+    stacktrace.value = std::make_shared<sqf::types::d_array>(log_messages.begin(), log_messages.end());
+
+    while (true)
+    {
+        // Try to find a frame that has recover behavior for runtime error
+        auto res = std::find_if(context_active.frames_rbegin(), context_active.frames_rend(),
+            [](sqf::runtime::frame& frame) -> bool { return frame.can_recover_runtime_error(); });
+        if (res == context_active.frames_rend())
+        {
+            break;
+        }
+        // Push Stacktrace to value-stack
+        context_active.push_value({ std::make_shared<sqf::types::d_stacktrace>(stacktrace) });
+
+        // Pop all frames between result and current_frame
+        size_t frames_to_pop = res - context_active.frames_rbegin();
+        for (size_t i = 0; i < frames_to_pop; i++)
+        {
+            context_active.pop_frame();
+        }
+
+        // Recover from exception
+        if (context_active.current_frame().recover_runtime_error(runtime) != sqf::runtime::frame::result::error)
+        {
+            runtime_error = false;
+            return true;
+        }
+        // This frame does not take over runtime errors (eg. try-catch only handles throw):
+        // the error leaves its scope too and the next enclosing frame is asked.
+        context_active.pop_value(true);
+        context_active.pop_frame();
+    }
+    stacktrace.value = {};
+    runtime.__logmsg(logmessage::runtime::Stacktrace(dinf, stacktrace));
+    runtime_error = false;
+    return false;
+}
+
 static sqf::runtime::runtime::result execute_do(sqf::runtime::runtime& runtime, size_t exit_after)
 {
     auto& context_active = runtime.context_active();
@@ -225,34 +274,7 @@ static sqf::runtime::runtime::result execute_do(sqf::runtime::runtime& runtime, 
         }
         else
         {
-            auto log_messages = runtime.log_messages;
-            runtime.log_messages.clear();
-            // Build Stacktrace
-            std::vector<sqf::runtime::frame> stacktrace_frames(context_active.frames_rbegin(), context_active.frames_rend());
-            sqf::runtime::diagnostics::stacktrace stacktrace(stacktrace_frames);
-
-            // Try to find a frame that has recover behavior for runtime error
-            auto res = std::find_if(context_active.frames_rbegin(), context_active.frames_rend(),
-                [](sqf::runtime::frame& frame) -> bool { return frame.can_recover_runtime_error(); });
-
-            if (res != context_active.frames_rend())
-            { // We found a recoverable frame
-                stacktrace.value = std::make_shared<sqf::types::d_array>(log_messages.begin(), log_messages.end());
-                // Push Stacktrace to value-stack
-                context_active.push_value({ std::make_shared<sqf::types::d_stacktrace>(stacktrace) });
-
-                // Pop all frames between result and current_frame
-                size_t frames_to_pop = res - context_active.frames_rbegin();
-                for (size_t i = 0; i < frames_to_pop; i++)
-                {
-                    context_active.pop_frame();
-                }
-
-                // Recover from exception
-                context_active.current_frame().recover_runtime_error(runtime);
-                runtime_error = false;
-            }
-            else
+            if (!recover_runtime_error(runtime, (*instruction)->diag_info()))
             { // No recover frame available, exit method
 #ifdef DF__SQF_RUNTIME__ASSEMBLY_DEBUG_ON_EXECUTE
                 std::cout << "\x1B[33m[ASSEMBLY ASSERT]\033[0m" <<
@@ -260,8 +282,6 @@ static sqf::runtime::runtime::result execute_do(sqf::runtime::runtime& runtime, 
                     "        " <<
                     "    " << "\x1B[36mEXIT execute_do\033[0m as runtime error occured" << std::endl;
 #endif // DF__SQF_RUNTIME__ASSEMBLY_DEBUG_ON_EXECUTE
-                runtime.__logmsg(logmessage::runtime::Stacktrace((*instruction)->diag_info(), stacktrace));
-                runtime_error = false;
                 return sqf::runtime::runtime::result::runtime_error;
             }
         }
